@@ -214,17 +214,24 @@ def t_from_words(acc, kind, length, shard, nshard, size='s'):
     checker = getattr(nb, 'check_{}_language_from_words'.format(kind))
     refs = reference_word_sets(length)
     tmp = tempfile.mkdtemp(prefix='gv_c12_')
+    prev_lang = None
     try:
+        gidx, gkey = -1, None
         for i, (text, langf, nstates, desc) in enumerate(answers_for(kind, size)):
-            if i % nshard != shard:
+            if desc[:2] != gkey:                   # answers built from the same spec (siblings) stay in one worker, back to back
+                gkey = desc[:2]
+                gidx += 1
+            if gidx % nshard != shard:
                 continue
             acc.states += 1
             alang = langf(length)
-            # all reference languages that are "near" the answer: itself, and every reference differing in <= 2 words, plus a stride of the rest
-            for j, ref in enumerate(refs):
-                diff = len(alang ^ ref)
-                if diff > 2 and (i + j) % 11:
-                    continue
+            # all reference languages that are "near" the answer: itself, and every reference differing in <= 2 words, plus a stride of the
+            # rest, plus the language of the PREVIOUS answer (a checker that confuses two consecutive submissions says OK exactly there)
+            tried = [(j, ref) for j, ref in enumerate(refs) if len(alang ^ ref) <= 2 or (i + j) % 11 == 0]
+            if prev_lang is not None and all(prev_lang != r for _, r in tried):
+                tried.append((len(refs), prev_lang))
+            prev_lang = frozenset(alang)
+            for j, ref in tried:
                 word_list = ' '.join((w or 'ε') for w in sorted(ref, key=lambda w: (len(w), w)))
                 for max_states in ((0,) if nstates is None else (0, 1, 2)):
                     inst = {'checker': checker.__name__, 'answer': text, 'word_list': word_list, 'length': length, 'max_states': max_states}
